@@ -24,9 +24,10 @@ def run(ctx):
     T = ctx.thorough
     ctx.tlc_mc("MC_Brutal", "MC_Brutal_big.cfg" if T else "MC_Brutal.cfg", coverage=T)
     ctx.tlc_mc("MC_Brutal", "MC_BrutalAck_big.cfg" if T else "MC_BrutalAck.cfg", coverage=T)
-    muts = ["MC_Brutal_mutCeil.cfg", "MC_Brutal_mutCap.cfg", "MC_BrutalAck_mutClamp.cfg", "MC_BrutalAck_mutStale.cfg"]
+    # quick: one model mutant per configuration (non-vacuity); thorough: all six
+    muts = ["MC_Brutal_mutCeil.cfg", "MC_BrutalAck_mutStale.cfg"]
     if T:
-        muts += ["MC_Brutal_mutConsume.cfg", "MC_Brutal_mutFloor.cfg"]
+        muts += ["MC_Brutal_mutCap.cfg", "MC_BrutalAck_mutClamp.cfg", "MC_Brutal_mutConsume.cfg", "MC_Brutal_mutFloor.cfg"]
     for m in muts:
         ctx.tlc_mc("MC_Brutal", m, expect_violation=True)
     scns = ctx.tlc_gen("MC_Brutal", "Gen_Brutal.cfg", num=2500 if T else 120, depth=17)
